@@ -11,6 +11,7 @@ import (
 	"fmt"
 	"os"
 	"path/filepath"
+	"strings"
 	"sync"
 
 	"verif/internal/ev"
@@ -47,6 +48,10 @@ func c09Txns() []c09Txn {
 		{"rollback", "", "PRAGMA cache_size=1", `BEGIN; ` + bulk + `; ROLLBACK`, false},
 		{"tiny", "", "", `UPDATE w SET v = 9 WHERE k = 'a'`, false},
 		{"two-page-db", `CREATE TABLE m (a); INSERT INTO m VALUES (1);`, "", `UPDATE m SET a = 2`, true},
+		// journals of 1..27 bytes after a completed commit (journal_size_limit below the header size)
+		{"size-limit-16", "", "PRAGMA journal_size_limit=16; PRAGMA cache_size=1", `BEGIN; UPDATE t SET v = 'limited' WHERE id < 25; COMMIT`, false},
+		{"size-limit-1", "", "PRAGMA journal_size_limit=1", `UPDATE w SET v = 5 WHERE k = 'c'`, false},
+		{"size-limit-27-exclusive", "", "PRAGMA journal_size_limit=27; PRAGMA locking_mode=EXCLUSIVE", `BEGIN; UPDATE t SET v = 'excl' WHERE id = 3; COMMIT`, false},
 	}
 }
 
@@ -190,6 +195,9 @@ func runC09(r *ev.Run) {
 		for _, t := range txns {
 			for _, m := range modes {
 				if (t.name == "grow" || t.name == "schema-change" || t.name == "rollback" || t.name == "tiny" || t.name == "two-page-db") && m != "DELETE" {
+					continue
+				}
+				if strings.HasPrefix(t.name, "size-limit") && m != "PERSIST" && !(t.name == "size-limit-27-exclusive" && m == "DELETE") {
 					continue
 				}
 				cfgs = append(cfgs, c09Config{txn: t, mode: m, ps: 512, sector: 512, autov: t.name == "autovacuum-truncate"})
